@@ -14,5 +14,10 @@ SlackSets == { <<[bus |-> 1, u |-> 1]>>, <<[bus |-> 2, u |-> 1]>>, <<[bus |-> 1,
                <<[bus |-> 1, u |-> 1], [bus |-> 3, u |-> 1]>>, <<[bus |-> 1, u |-> 1], [bus |-> 3, u |-> 0]>>,
                <<[bus |-> 2, u |-> 1], [bus |-> 2, u |-> 1]>> }
 OffSets(n) == {{}} \cup {{b} : b \in 1..n} \cup {{1, 2}, {2, 3}}
-ASSUME JsonSerialize(IOEnv.OUT, [g3 |-> G3, g4 |-> G4, slacks |-> SlackSets, off3 |-> OffSets(3), off4 |-> OffSets(4)])
+(* set partitions of 1..n (restricted-growth labellings) with at least three blocks: many islands with interleaved bus numbers; *)
+(* each block becomes a path through its members in increasing order, singleton blocks are isolated buses                     *)
+RG(n, k) == {f \in [1..n -> 1..k] : f[1] = 1 /\ \A i \in 2..n : \E j \in 1..(i - 1) : f[i] <= f[j] + 1}
+NBlocks(f, n) == Cardinality({f[i] : i \in 1..n})
+Parts(n) == {f \in RG(n, 4) : NBlocks(f, n) >= 3 /\ Cardinality({b \in 1..4 : Cardinality({i \in 1..n : f[i] = b}) >= 2}) >= 2}
+ASSUME JsonSerialize(IOEnv.OUT, [g3 |-> G3, g4 |-> G4, slacks |-> SlackSets, off3 |-> OffSets(3), off4 |-> OffSets(4), parts6 |-> Parts(6), parts7 |-> Parts(7)])
 ====
